@@ -31,3 +31,6 @@ def collect(P):
     P.int_const("VINT_STOP_BIT", "common/src/vint.rs", r"^const STOP_BIT: u8 = ([^;]+);", "u8")
     for c in CODES:
         P.int_const("DOC_" + c, "src/schema/document/mod.rs", r"pub const %s: u8 = ([^;]+);" % c, "u8")
+    # serialize_vint_u32 (used by CompactDoc for every length prefix): the four branch thresholds
+    for k in (2, 3, 4, 5):
+        P.int_const("VINT32_START_%d" % k, "common/src/vint.rs", r"const START_%d: u64 = ([^;]+);" % k, "u64")
